@@ -13,7 +13,10 @@ structure D where
 
 def flush (st : St) : St × List String := ({ st with n := { st.n with trace := [] } }, st.n.trace.reverse)
 
-def parseTape (ws : List String) : Option (List TapeEv) :=
+def parseTape (ws0 : List String) : Option (List TapeEv) :=
+  -- `hang`: the cache goes silent and the script ends (the harness keeps the thread alive inside recv so that the
+  -- following `run stop` exercises rtr_stop on a running thread); for the model the tape simply ends there
+  let ws := ws0.takeWhile (· ≠ "hang")
   ws.mapM fun w =>
     if w.startsWith "rx:" then
       match hexToBytes? (w.drop 3).toString with
